@@ -298,7 +298,8 @@ func parent(run *ev.Run, jobs []Job, opt Options) {
 		"scenarios_capped":              tot.JobsCapped,
 		"scenarios_skipped_budget":      tot.Skipped,
 		"distinct_final_observations":   tot.DistinctEnds,
-		"outcome_classes":               tot.Outcomes,
+		"outcome_classes":               topOutcomes(tot.Outcomes, 40),
+		"outcome_classes_total":         len(tot.Outcomes),
 		"deadlock_executions":           tot.Deadlocks,
 		"horizon_executions":            tot.Horizons,
 		"max_choice_points":             tot.MaxChoices,
@@ -314,7 +315,7 @@ func parent(run *ev.Run, jobs []Job, opt Options) {
 	for k, v := range opt.Extra {
 		cov[k] = v
 	}
-	fmt.Printf("%s: scenarios=%d executions=%d steps=%d outcomes=%v capped=%d skipped=%d\n", run.Prop, tot.Jobs, tot.Execs, tot.Steps, tot.Outcomes, tot.JobsCapped, tot.Skipped)
+	fmt.Printf("%s: scenarios=%d executions=%d steps=%d distinct-outcome-classes=%d capped=%d skipped=%d\n", run.Prop, tot.Jobs, tot.Execs, tot.Steps, len(tot.Outcomes), tot.JobsCapped, tot.Skipped)
 	run.Finish(cov)
 }
 
@@ -354,6 +355,26 @@ func claim(n, i, total int) int {
 	f.Truncate(0)
 	f.WriteAt([]byte(fmt.Sprint(cur+1)), 0)
 	return cur
+}
+
+func topOutcomes(m map[string]int, n int) map[string]int {
+	type kv struct {
+		k string
+		v int
+	}
+	var l []kv
+	for k, v := range m {
+		l = append(l, kv{k, v})
+	}
+	sort.Slice(l, func(a, b int) bool { return l[a].v > l[b].v || (l[a].v == l[b].v && l[a].k < l[b].k) })
+	r := map[string]int{}
+	for i, e := range l {
+		if i >= n {
+			break
+		}
+		r[e.k] = e.v
+	}
+	return r
 }
 
 func tail(s string, n int) string {
